@@ -137,8 +137,9 @@ class FunctionVerifier:
         eng.no_contract_for = set(c.inline) | {c.qual}
         eng.findings = self.all_findings
         eng.opaque_always = set(c.opaque)
-        for (q, line), spec in c.loops.items() if c.loops else []:
-            eng.loop_specs[(q, line)] = spec
+        for key, spec in (c.loops or {}).items():
+            eng.loop_specs[(c.qual, key) if isinstance(key, str) else key] = spec
+        eng.default_spec_module = c.spec_module
         from .models import install_default_models
         install_default_models(eng)
         load_spec_env(eng, self.repo, self.spec_modules + ([c.spec_module] if c.spec_module else []))
@@ -290,11 +291,11 @@ class FunctionVerifier:
         # side obligations (shift overflow, callee preconditions): batched per path condition, split on failure
         groups = {}
         for ob in eng.side_obligations:
-            key = (ob.kind if ob.kind == "precondition" else "side", tuple(x.get_id() for x in ob.pc))
+            key = (ob.kind if ob.kind in ("precondition", "loop") else "side", tuple(x.get_id() for x in ob.pc))
             groups.setdefault(key, []).append(ob)
         grouped = []
         for gi, ((kind, _), obs) in enumerate(groups.items()):
-            if kind == "precondition" or len(obs) == 1:
+            if kind in ("precondition", "loop") or len(obs) == 1:
                 for ob in obs:
                     self.obligation(eng, mk, shapes, f"{c.qual}/{ob.kind}:{ob.name.split('#')[0]}",
                                     ob.name.split('#')[1] + (f"@{case}" if case else ""), ob.pc, ob.goal, ob.kind)
